@@ -597,6 +597,15 @@ func (in *interp) instr(st *istate, ins ssa.Instruction) {
 			st.env[x] = constv(v.c, x.Type())
 			return
 		}
+		// a small integer constant converted between integer types keeps its value
+		if v.k == aConst && v.c.Kind() == constant.Int {
+			if bt, ok := x.Type().Underlying().(*types.Basic); ok && bt.Info()&types.IsInteger != 0 {
+				if n, exact := constant.Int64Val(v.c); exact && n >= -128 && n <= 127 && (n >= 0 || bt.Info()&types.IsUnsigned == 0) {
+					st.env[x] = constv(v.c, x.Type())
+					return
+				}
+			}
+		}
 		st.env[x] = symv(typeName(x.Type())+"("+v.String()+")", x.Type())
 	case *ssa.TypeAssert:
 		v := in.get(st, x.X)
@@ -714,6 +723,33 @@ func (in *interp) instr(st *istate, ins ssa.Instruction) {
 		a.nonnil = true
 		st.env[x] = a
 	case *ssa.IndexAddr, *ssa.Index, *ssa.Lookup, *ssa.MakeSlice, *ssa.MakeClosure, *ssa.Next, *ssa.DebugRef, *ssa.RunDefers, *ssa.Defer:
+		// a lookup with a constant key in a package-level table of constants
+		if lk, isLk := ins.(*ssa.Lookup); isLk {
+			if ld, ok := lk.X.(*ssa.UnOp); ok && ld.Op == token.MUL {
+				if gl, ok := ld.X.(*ssa.Global); ok {
+					if tbl, ok := constGlobalMap(in.p, gl); ok {
+						if k := in.get(st, lk.Index); k.k == aConst {
+							mt := deref(gl.Type()).Underlying().(*types.Map)
+							val, found := tbl[k.c.ExactString()]
+							var res *aval
+							if found {
+								res = constv(val, mt.Elem())
+							} else {
+								res = zeroConst(mt.Elem())
+							}
+							if res != nil {
+								if lk.CommaOk {
+									st.env[lk] = structVal(map[string]*aval{"0": res, "1": boolv(found)})
+								} else {
+									st.env[lk] = res
+								}
+								return
+							}
+						}
+					}
+				}
+			}
+		}
 		if v, ok := ins.(ssa.Value); ok {
 			ops := []string{}
 			for _, op := range ins.Operands(nil) {
@@ -922,4 +958,119 @@ func smallHelper(f *ssa.Function) bool {
 	}
 	c := n[0]
 	return c >= 'a' && c <= 'z'
+}
+
+// zeroConst: the zero value of a basic type as a constant (nil when t is not
+// a basic bool/int/string type).
+func zeroConst(t types.Type) *aval {
+	bt, ok := t.Underlying().(*types.Basic)
+	if !ok {
+		return nil
+	}
+	switch {
+	case bt.Info()&types.IsBoolean != 0:
+		return constv(constant.MakeBool(false), t)
+	case bt.Info()&types.IsInteger != 0:
+		return constv(constant.MakeInt64(0), t)
+	case bt.Info()&types.IsString != 0:
+		return constv(constant.MakeString(""), t)
+	}
+	return nil
+}
+
+var constGlobalMaps = map[*ssa.Global]map[string]constant.Value{}
+
+// constGlobalMap: gl is a package-level map with constant keys and constant
+// basic values that the package initialiser fills and every other function
+// only looks up (m[k], len(m)): a constant table. Keys are returned in their
+// exact constant spelling.
+func constGlobalMap(p *Prog, gl *ssa.Global) (map[string]constant.Value, bool) {
+	if t, ok := constGlobalMaps[gl]; ok {
+		return t, t != nil
+	}
+	constGlobalMaps[gl] = nil
+	mt, ok := deref(gl.Type()).Underlying().(*types.Map)
+	if !ok {
+		return nil, false
+	}
+	if _, ok := mt.Key().Underlying().(*types.Basic); !ok {
+		return nil, false
+	}
+	if _, ok := mt.Elem().Underlying().(*types.Basic); !ok {
+		return nil, false
+	}
+	var mk *ssa.MakeMap
+	good := true
+	for _, f := range p.Funcs {
+		isInit := f.Name() == "init" && f.Signature.Recv() == nil && f.Parent() == nil
+		eachInstr(f, func(ins ssa.Instruction) {
+			uses := false
+			for _, op := range ins.Operands(nil) {
+				if *op == ssa.Value(gl) {
+					uses = true
+				}
+			}
+			if !uses {
+				return
+			}
+			switch x := ins.(type) {
+			case *ssa.Store:
+				m, isMk := x.Val.(*ssa.MakeMap)
+				if !isInit || x.Addr != ssa.Value(gl) || !isMk || mk != nil {
+					good = false
+					return
+				}
+				mk = m
+			case *ssa.UnOp:
+				if x.Op != token.MUL {
+					good = false
+					return
+				}
+				for _, ref := range referrers(x) {
+					switch y := ref.(type) {
+					case *ssa.Lookup:
+						if y.X != ssa.Value(x) {
+							good = false
+						}
+					case *ssa.Call:
+						if builtinName(y.Common()) != "len" {
+							good = false
+						}
+					case *ssa.DebugRef:
+					default:
+						good = false
+					}
+				}
+			default:
+				good = false
+			}
+		})
+	}
+	if !good || mk == nil {
+		return nil, false
+	}
+	tbl := map[string]constant.Value{}
+	for _, ref := range referrers(mk) {
+		switch y := ref.(type) {
+		case *ssa.MapUpdate:
+			kc, ok1 := y.Key.(*ssa.Const)
+			vc, ok2 := y.Value.(*ssa.Const)
+			if !ok1 || !ok2 || kc.Value == nil || vc.Value == nil || y.Map != ssa.Value(mk) {
+				return nil, false
+			}
+			if _, dup := tbl[kc.Value.ExactString()]; dup {
+				return nil, false
+			}
+			tbl[kc.Value.ExactString()] = vc.Value
+		case *ssa.Store:
+		case *ssa.DebugRef:
+		default:
+			return nil, false
+		}
+	}
+	if len(tbl) == 0 {
+		return nil, false
+	}
+	constGlobalMaps[gl] = tbl
+	return tbl, true
 }
